@@ -4,6 +4,7 @@
 out=$1; shift
 ids=${@:-C13 C19 C18 C17 C08 C06 C20 C14}
 rm -rf $out; mkdir -p $out/bin
+(cd /verif && ./build.sh dev && ./build.sh asan) || { echo "build failed"; exit 2; }
 cp /verif/target/sim/debug/nvsim $out/bin/nvsim
 cp /verif/target/sim-asan/x86_64-unknown-linux-gnu/debug/nvsim $out/bin/nvsim-asan
 cp /verif/target/repo/debug/nitrogql-cli $out/bin/nitrogql-cli
